@@ -10,7 +10,8 @@ Model of the C GETTERS of `capi/src/io.rs` (work package capiget; C17 / C06 / C0
 `chewing_cand_TotalPage/TotalChoice/ChoicePerPage/CurrentPage/CheckDone`, the candidate enumeration
 (`chewing_cand_Enumerate/hasNext/String(_static)`, `chewing_cand_string_by_index(_static)`),
 `chewing_cand_list_has_next/has_prev`, `chewing_interval_Enumerate/hasNext/Get`,
-`chewing_keystroke_CheckIgnore/CheckAbsorb`, and the legacy mode getters `chewing_get_ChiEngMode/ShapeMode/…`
+`chewing_keystroke_CheckIgnore/CheckAbsorb`, the deprecated `chewing_zuin_Check/String`, `chewing_get_phoneSeq(Len)`, and the
+legacy mode getters `chewing_get_ChiEngMode/ShapeMode/…`
 (through `Model/Config.lean`: `Config.legacyGet`).
 
 Three layers, like the call glue of `Model/CApiOps.lean`:
@@ -87,6 +88,8 @@ structure GFacts where
   last : KB
   /-- `editor_options()`, in the encoding of `Model/Config.lean` -/
   options : Config.Options
+  /-- `symbols()` filtered to the syllables, each `to_u16()` -/
+  phoneSeq : List Nat := []
 
 /-! ### the value a getter hands out -/
 
@@ -100,6 +103,10 @@ inductive GVal where
   | globalEmpty
   /-- what `chewing_interval_Get` stores through `it` (`none`: `*it` is not written) -/
   | ival (v : Option (Int × Int))
+  /-- `chewing_zuin_String`: the owned string and the value stored through `zuin_count` -/
+  | strCount (p : Option (List Nat)) (count : Int)
+  /-- `chewing_get_phoneSeq`: an owned `u16` slice -/
+  | ushorts (v : List Nat)
   /-- a `void` function -/
   | unit
 deriving Repr, DecidableEq, Inhabited
@@ -209,6 +216,9 @@ inductive Getter where
   | candEnumerate | candHasNext | candString | candStringStatic
   | candStringByIndex (i : Int) | candStringByIndexStatic (i : Int)
   | intervalEnumerate | intervalHasNext | intervalGet
+  /-- the deprecated `chewing_zuin_Check` (= `chewing_bopomofo_Check(ctx) ^ 1`) / `chewing_zuin_String(ctx, &count)` -/
+  | zuinCheck | zuinString
+  | phoneSeq | phoneSeqLen
 deriving Repr, DecidableEq, Inhabited
 
 /-- the C function a getter call stands for -/
@@ -224,6 +234,10 @@ def Getter.fnName : Getter → String
   | .intervalEnumerate => "chewing_interval_Enumerate"
   | .intervalHasNext => "chewing_interval_hasNext"
   | .intervalGet => "chewing_interval_Get"
+  | .zuinCheck => "chewing_zuin_Check"
+  | .zuinString => "chewing_zuin_String"
+  | .phoneSeq => "chewing_get_phoneSeq"
+  | .phoneSeqLen => "chewing_get_phoneSeqLen"
 
 /-- what only getters write: the fixed text buffers and the two iterator slots -/
 structure GSlots where
@@ -239,6 +253,9 @@ def GSlots.setBuf (s : GSlots) (w : Option (String × List Nat)) : GSlots :=
   match w with
   | some (field, buf) => { s with bufs := (field, buf) :: s.bufs.filter (fun p => p.1 != field) }
   | none => s
+
+/-- `x ^ 1` on a C `int` (two's complement): the lowest bit flipped -/
+def xor1 (i : Int) : Int := if i % 2 == 0 then i + 1 else i - 1
 
 /-- the empty owned string `CString::default().into_raw()` -/
 def emptyHeap : GVal := .heap (some [0])
@@ -256,7 +273,11 @@ def candHeap (t : Text) : GVal :=
     item; `chewing_cand_String(_static)` pops the slot (no state check; "" when exhausted or never enumerated);
     `chewing_cand_string_by_index(_static)` reads `all_candidates()[index as usize]` ("" beyond);
     `chewing_interval_Enumerate` stores the PHRASE intervals; `chewing_interval_hasNext` peeks; `chewing_interval_Get`
-    pops and stores `start as i32`, `end as i32` (nothing when exhausted). -/
+    pops and stores `start as i32`, `end as i32` (nothing when exhausted).
+    The deprecated `chewing_zuin_Check` is `chewing_bopomofo_Check(ctx) ^ 1` (hence -2 for a NULL context),
+    `chewing_zuin_String(ctx, &count)` is `chewing_bopomofo_String` plus the number of CHARACTERS stored through `count`
+    (a NULL `count` is dereferenced: C15's subject, not modelled); `chewing_get_phoneSeq(Len)` hand out the syllables of
+    the pre-edit buffer as `u16` (an owned slice) / their number. -/
 def getOn (f : GFacts) (s : GSlots) : Getter → Outcome (GSlots × GVal)
   | .plain fn =>
     match getterRow fn with
@@ -306,6 +327,10 @@ def getOn (f : GFacts) (s : GSlots) : Getter → Outcome (GSlots × GVal)
     match s.intervalIter with
     | some (iv :: rest) => .ok ({ s with intervalIter := some rest }, .ival (some (asCInt iv.1, asCInt iv.2)))
     | _ => .ok (s, .ival none)
+  | .zuinCheck => .ok (s, .int (xor1 (boolInt f.enteringSyllable)))
+  | .zuinString => .ok (s, .strCount (CStr.heapCstr (CStr.utf8Encode f.bopo)) (asCInt f.bopo.length))
+  | .phoneSeq => .ok (s, .ushorts f.phoneSeq)
+  | .phoneSeqLen => .ok (s, .int (asCInt f.phoneSeq.length))
 
 /-- the answer of a getter call for a NULL context -/
 def getNull : Getter → Outcome GVal
@@ -323,6 +348,10 @@ def getNull : Getter → Outcome GVal
   | .intervalEnumerate => .ok .unit
   | .intervalHasNext => .ok (.int errorValue)
   | .intervalGet => .ok (.ival none)
+  | .zuinCheck => .ok (.int (xor1 errorValue))
+  | .zuinString => .ok emptyHeap
+  | .phoneSeq => .ok (.heap none)
+  | .phoneSeqLen => .ok (.int errorValue)
 
 /-- the documented loop `Enumerate; while hasNext { String }` run on the slots: the strings handed out (fuel = an
     upper bound of the number of rounds) -/
@@ -408,7 +437,8 @@ def CApi.GFacts.ofEditor (e : Editor D L) : Outcome GFacts :=
           isSelecting := e.isSelecting, allCandidates := all, paginated := pag, totalPage := tp,
           currentPageNo := e.currentPageNo, hasNextSel := hn, hasPrevSel := hp,
           intervals := ivs.map fun iv => (iv.start, iv.stop, iv.isPhrase), last := e.shared.last,
-          options := cfgOfOptions e.shared.options }
+          options := cfgOfOptions e.shared.options,
+          phoneSeq := e.shared.com.inner.symbols.filterMap fun | .syl k => some k | .chr _ => none }
   | .panic p, _, _, _, _, _ => .panic p
   | _, .panic p, _, _, _, _ => .panic p
   | _, _, .panic p, _, _, _ => .panic p
